@@ -51,15 +51,17 @@ func Run(args []string) {
 	// quick tier = the prototype's set; the thorough tier adds more spellings of bounds and more examples
 	nums := []string{"", "-5", "0", "-0", "1", "1.0", "1.5", "1.50", "2", "7", "1e1", "15e-1", "0.5"}
 	examples := []struct{ k, tok string }{{"i", "1"}, {"f", "1.5"}, {"i", "0"}, {"f", "1.0"}, {"i", "-0"}}
-	strs := []string{`"s"`, `""`, `"sss"`}
+	// string examples: plain, and spelled with escapes / multi-byte characters (decoded length in bytes, which is
+	// what the length rules count, below the raw length of the token)
+	strs := []string{`"s"`, `""`, `"sss"`, `"a\n"`, `"\u0041"`, `"\""`, `"\/\\"`, `"é"`, `"\u00e9s"`, `"\ud83d\ude00"`, `"€"`}
 	maxLen := 3
 	if vh.Tier() == "thorough" {
 		nums = append(nums, "-1", "0.0", "-0.0", "1.05", "2.0", "10", "100", "-5.5", "1E1", "2e0", "0.50")
 		examples = append(examples, []struct{ k, tok string }{{"i", "2"}, {"i", "-5"}, {"i", "7"}, {"i", "10"}, {"f", "0.5"}, {"f", "-0.0"}, {"f", "1.50"}, {"f", "2.0"}, {"f", "-5.5"}}...)
-		strs = append(strs, `"ss"`, `"ssss"`)
+		strs = append(strs, `"ss"`, `"ssss"`, `"\t\r\n"`, `"😀"`, `"\uD83D"`, `"a\u20acb"`, `"\u0073\u0073\u0073\u0073"`)
 		maxLen = 5
 	}
-	rep := vh.NewReport(command, fmt.Sprintf("every single-node schema `<example> // {min, exclusiveMinimum, max, exclusiveMaximum}` over %d number examples x %d^2 bound spellings (absent included) x the exclusive flags, and `<string> // {minLength, maxLength}` over %d strings x lengths absent,0..%d squared; real Check()==nil vs model (example satisfies its rules, min<=max strict if exclusive, minLength<=maxLength); schemas with an exponent-spelled bound are expected to fail with lexical error 301 and are not given to the model verdict; nontrivial = at least one rule present", len(examples), len(nums), len(strs), maxLen))
+	rep := vh.NewReport(command, fmt.Sprintf("every single-node schema `<example> // {min, exclusiveMinimum, max, exclusiveMaximum}` over %d number examples x %d^2 bound spellings (absent included) x the exclusive flags (each absent / true / false), and `<string> // {minLength, maxLength}` over %d strings (plain and with escapes / multi-byte characters; length = bytes of the unquoted value) x lengths absent,0..%d squared; real Check()==nil vs model (example satisfies its rules, min<=max strict if exclusive, minLength<=maxLength); schemas with an exponent-spelled bound are expected to fail with lexical error 301 and are not given to the model verdict; nontrivial = at least one rule present", len(examples), len(nums), len(strs), maxLen))
 	rep.Exhaustive = true
 	var reqs, impl, inputs []string
 	var expBound []bool
@@ -75,9 +77,11 @@ func Run(args []string) {
 	for _, ex := range examples {
 		for _, mn := range nums {
 			for _, mx := range nums {
-				for _, xs := range []int{0, 1, 2, 3} {
-					mnx, mxx := xs&1 == 1, xs&2 == 2
-					if (mnx && mn == "") || (mxx && mx == "") {
+				// each exclusive flag: absent, true, or written out with the value false (which must be inert)
+				for xs := 0; xs < 9; xs++ {
+					mnS, mxS := xs%3, xs/3
+					mnx, mxx := mnS == 1, mxS == 1
+					if (mnS != 0 && mn == "") || (mxS != 0 && mx == "") {
 						continue
 					}
 					var rs, at []string
@@ -88,6 +92,9 @@ func Run(args []string) {
 						if mnx {
 							rs = append(rs, "exclusiveMinimum: true")
 							rep.Stat("rule_exclusiveMinimum")
+						} else if mnS == 2 {
+							rs = append(rs, "exclusiveMinimum: false")
+							rep.Stat("rule_exclusiveMinimum_false")
 						}
 					}
 					if mx != "" {
@@ -97,6 +104,9 @@ func Run(args []string) {
 						if mxx {
 							rs = append(rs, "exclusiveMaximum: true")
 							rep.Stat("rule_exclusiveMaximum")
+						} else if mxS == 2 {
+							rs = append(rs, "exclusiveMaximum: false")
+							rep.Stat("rule_exclusiveMaximum_false")
 						}
 					}
 					text := ex.tok
@@ -108,6 +118,17 @@ func Run(args []string) {
 				}
 			}
 		}
+	}
+	// decoded length by the Lean model of Bytes.Unquote; the request to the rule model carries a stand-in token of
+	// that length, because its length rules count the characters between the quotes
+	unq := make([]string, len(strs))
+	for i, t := range strs {
+		unq[i] = "unq " + vh.Hex([]byte(t))
+	}
+	standIn := map[string]string{}
+	for i, m := range vh.AskModel(unq) {
+		standIn[strs[i]] = `"` + strings.Repeat("s", len(m)/2) + `"`
+		rep.Stat(fmt.Sprintf("string_example_decoded_length_%d", len(m)/2))
 	}
 	for _, tok := range strs {
 		for mn := -1; mn <= maxLen; mn++ {
@@ -128,7 +149,7 @@ func Run(args []string) {
 					text += " // {" + strings.Join(rs, ", ") + "}"
 				}
 				rep.Stat("example_kind_s")
-				add("chk (lit s 0 "+strings.Join(at, " ")+") "+tok, text, false)
+				add("chk (lit s 0 "+strings.Join(at, " ")+") "+standIn[tok], text, false)
 			}
 		}
 	}
